@@ -49,7 +49,37 @@ func (a *app) HandleInactive(ctx netty.InactiveContext, ex netty.Exception) {
 // becomes active (for the handlers behind it) once the peer has sent a byte or the connection ended.
 type greet struct {
 	tr            *mock.Transport
+	id            int64
 	entered, done bool
+}
+
+// recHolder wraps the channel holder given to the bootstrap and notes (in scheduler steps) when a channel
+// reaches the holder's HandleActive - the moment it gets registered - and when CloseAll starts its sweep.
+type recHolder struct {
+	netty.ChannelHolder
+	o *obs
+}
+
+// regCtx notes the step at which the holder forwards the active event, i.e. has finished registering.
+type regCtx struct {
+	netty.ActiveContext
+	o *obs
+}
+
+func (c regCtx) HandleActive() {
+	c.o.regStep[c.Channel().ID()] = vsched.X.Steps()
+	c.ActiveContext.HandleActive()
+}
+
+func (r *recHolder) HandleActive(ctx netty.ActiveContext) {
+	r.ChannelHolder.HandleActive(regCtx{ctx, r.o})
+}
+
+func (r *recHolder) CloseAll(err error) {
+	if r.o.sweepStart < 0 {
+		r.o.sweepStart = vsched.X.Steps()
+	}
+	r.ChannelHolder.CloseAll(err)
 }
 
 func (g *greet) HandleActive(ctx netty.ActiveContext) {
@@ -66,6 +96,8 @@ type obs struct {
 	holder               netty.ChannelHolder
 	apps                 []*app
 	greets               []*greet
+	regStep              map[int64]int   // channel id -> step at which the holder had registered it (forwarded the active event)
+	sweepStart           int             // step at which CloseAll began (-1: never)
 	cbErrs               map[int][]error // listener index -> callback errors
 	listenerClosedByUser map[int]bool
 	connectErr           []error
@@ -121,7 +153,9 @@ func scenario(p plan, bound int) *explore.Scenario {
 		Cfg:    vsched.Config{MaxSteps: 8000},
 		// (handshake plans judge the scheduler's verdict themselves, see Check)
 		AllowAbnormal: p.Handshake,
-		Init:          func() any { return &obs{cbErrs: map[int][]error{}, listenerClosedByUser: map[int]bool{}} },
+		Init: func() any {
+			return &obs{cbErrs: map[int][]error{}, listenerClosedByUser: map[int]bool{}, regStep: map[int64]int{}, sweepStart: -1}
+		},
 		Body: func(v any) {
 			o := v.(*obs)
 			o.f = &mock.Factory{}
@@ -134,7 +168,7 @@ func scenario(p plan, bound int) *explore.Scenario {
 					a.tr.Stalled = true
 				}
 				if p.Handshake {
-					g := &greet{tr: a.tr}
+					g := &greet{tr: a.tr, id: ch.ID()}
 					o.greets = append(o.greets, g)
 					ch.Pipeline().AddFirst(g)
 				}
@@ -148,7 +182,7 @@ func scenario(p plan, bound int) *explore.Scenario {
 				netty.WithChannel(chf),
 				netty.WithContext(parent),
 				netty.WithTransport(o.f),
-				netty.WithChannelHolder(o.holder),
+				netty.WithChannelHolder(&recHolder{o.holder, o}),
 				netty.WithChildInitializer(mk),
 				netty.WithClientInitializer(mk),
 			)
@@ -242,14 +276,17 @@ func scenario(p plan, bound int) *explore.Scenario {
 				// has swept the holder is registered too late; the handshake handler behind the holder then
 				// waits for the peer with nobody left to close the channel. Everything else that is wrong
 				// in such an execution (stuck accept loop, leaked connection, deadlock verdict) follows from it.
-				stuck := 0
+				stuck, late := 0, 0
 				for _, g := range o.greets {
 					if g.entered && !g.done {
 						stuck++
+						if reg, ok := o.regStep[g.id]; ok && o.sweepStart >= 0 && reg > o.sweepStart {
+							late++
+						}
 					}
 				}
-				if stuck > 0 && hlib.HolderSize(o.holder) == stuck {
-					add("setup-channel-left-open/registered-after-holder-sweep", fmt.Sprintf("%d channel(s) registered in the holder after Shutdown had closed its members are still waiting in a handshake handler: never closed without action of the peer;%s", stuck, ctxs))
+				if stuck > 0 && late == stuck {
+					add("setup-channel-left-open/registered-after-holder-sweep", fmt.Sprintf("%d channel(s) that reached the holder only after Shutdown had begun to close its members are still waiting in a handshake handler: never closed without action of the peer;%s", stuck, ctxs))
 					return fs
 				}
 				if ab := x.Abnormal(); ab != "" {
